@@ -6,6 +6,7 @@ import SymfcModel.Model.Tables
 import SymfcModel.Gen.PermTables
 import SymfcModel.Lemmas.Coverage
 import SymfcModel.Lemmas.Pipeline
+import SymfcModel.Gen.PipelineFlow
 namespace Symfc.C04
 open Symfc
 
@@ -106,5 +107,42 @@ theorem every_admissible_tensor_is_a_unique_combination {K : Type*} [Field K] [L
     (A * W₂ * W₃).mulVec ((A * W₂ * W₃).transpose.mulVec x) = x ∧
       ∀ w : k₃ → K, (A * W₂ * W₃).mulVec w = x → w = (A * W₂ * W₃).transpose.mulVec x :=
   Pipeline.pipeline_complete A P T ν W₂ W₃ hA h₂ h₃ hPs hPi hν x hx
+
+/-- C04, tie of the pipeline theorem to the code (extracted dataflow of `FCBasisSetO{2,3,4}.run`): the permutation stage
+    gives `c_pt` (= A), the coset projector is compressed by `c_pt` and its unit eigenvectors are `c_rpt` (= W₂), the
+    product `c_pt · c_rpt` is what the sum-rule projector is compressed by, its unit eigenvectors `eigvecs` (= W₃) are
+    stored as the basis set next to `n_a_compression_matrix = c_pt · c_rpt` — for all three orders the same three-stage
+    shape (order 2 has the optional rotational sum rule, off by default and outside the sixteen properties). -/
+theorem run_is_the_three_stage_pipeline :
+    Gen.runFlowO2 =
+  [("c_pt", "compr_permutation_lat_trans_O2", ["trans_perms"]),
+   ("proj_rpt", "get_compr_coset_projector_O2", ["c_pt=c_pt"]),
+   ("c_rpt", "eigsh_projector", ["proj_rpt"]),
+   ("n_a_compress_mat", "dot_product_sparse", ["c_pt", "c_rpt"]),
+   ("proj", "compressed_projector_sum_rules_O2", ["trans_perms", "n_a_compress_mat"]),
+   ("eigvecs", "eigsh_projector_sumrule", ["proj"]),
+   ("self._basis_set", "=", ["eigvecs"]),
+   ("self._n_a_compression_matrix", "=", ["n_a_compress_mat"])] ∧
+    Gen.runFlowO3 =
+  [("c_pt", "compr_permutation_lat_trans_O3", ["trans_perms"]),
+   ("proj_rpt", "get_compr_coset_projector_O3", ["c_pt=c_pt"]),
+   ("c_rpt", "eigsh_projector", ["proj_rpt"]),
+   ("n_a_compress_mat", "dot_product_sparse", ["c_pt", "c_rpt"]),
+   ("proj", "compressed_projector_sum_rules_O3", ["trans_perms", "n_a_compress_mat"]),
+   ("eigvecs", "eigsh_projector_sumrule", ["proj"]),
+   ("self._basis_set", "=", ["eigvecs"]),
+   ("self._n_a_compression_matrix", "=", ["n_a_compress_mat"])] ∧
+    Gen.runFlowO4 =
+  [("c_pt", "compr_permutation_lat_trans_O4", ["trans_perms"]),
+   ("proj_rpt", "get_compr_coset_projector_O4", ["c_pt=c_pt"]),
+   ("c_rpt", "eigsh_projector", ["proj_rpt"]),
+   ("n_a_compress_mat", "dot_product_sparse", ["c_pt", "c_rpt"]),
+   ("proj", "compressed_projector_sum_rules_O4", ["trans_perms", "n_a_compress_mat"]),
+   ("eigvecs", "eigsh_projector_sumrule", ["proj"]),
+   ("self._basis_set", "=", ["eigvecs"]),
+   ("self._n_a_compression_matrix", "=", ["n_a_compress_mat"])] ∧
+    Gen.runFlowOptionalO2 = [("proj", "OPTIONAL(rotational_sum_rules) -=", ["complementary_compr_projector_rot_sum_rules_O2"])] ∧
+    Gen.runFlowOptionalO3 = [] ∧ Gen.runFlowOptionalO4 = [] := by
+  decide
 
 end Symfc.C04
